@@ -229,7 +229,26 @@ func genCase(t *rapid.T) Case {
 		// one-token corruptions
 		q := append([]string(nil), p...)
 		pos := g.Pick(len(q), "corrupt")
-		switch g.Pick(5, "how") {
+		switch g.Pick(10, "how") {
+		case 5:
+			// the token repeated (a doubled name, a repeated key or value)
+			q = append(q[:pos+1], append([]string{q[pos]}, q[pos+1:]...)...)
+		case 6:
+			if pos > 0 {
+				q[pos] = q[pos-1]
+			}
+		case 7:
+			if pos+1 < len(q) {
+				q[pos], q[pos+1] = q[pos+1], q[pos]
+			}
+		case 8:
+			q = append(q[:pos], q[pos+1:]...)
+		case 9:
+			// a token that is valid somewhere else in the schema
+			if len(c.Paths) > 0 {
+				other := c.Paths[g.Pick(len(c.Paths), "otherpath")]
+				q[pos] = other[g.Pick(len(other), "othertok")]
+			}
 		case 0:
 			q[pos] = "no-such-node"
 		case 1:
@@ -241,7 +260,9 @@ func genCase(t *rapid.T) Case {
 		default:
 			q[pos] = ""
 		}
-		c.Paths = append(c.Paths, q)
+		if len(q) > 0 {
+			c.Paths = append(c.Paths, q)
+		}
 	}
 	// choice / case names used as tokens right where the choice sits
 	cps := choicePaths(w)
@@ -405,7 +426,7 @@ func checkCase(c Case) fw.Outcome {
 var paths = fw.Register(&fw.Prop[Case]{
 	ID: "C17", Name: "paths",
 	Rule: "compiled schemas from the module-set generator (presence and non-presence containers, lists with typed keys, leaves of all modelled types incl. empty, leaf-lists, nested choices and cases, groupings, " +
-		"augments) and token paths from a random walk of the harness's own (inlined) model: complete valid paths, every proper prefix, one-token corruptions (unknown name, value outside the type, empty token), " +
+		"augments) and token paths from a random walk of the harness's own (inlined) model: complete valid paths, every proper prefix, one-token corruptions (unknown name, value outside the type, empty token, token doubled, predecessor repeated, neighbours swapped, token dropped, token valid elsewhere), " +
 		"over-long paths, choice / case names used as tokens; both values of AllowIncompletePaths; oracle: reference walker over the abstract model with exact value spaces; a rejection must identify the first " +
 		"offending element (error path = valid prefix, offending element = bad-element info or last path element); non-trivial = a path of length >= 3",
 	Gen: genCase, Check: checkCase,
